@@ -229,6 +229,12 @@ class Interp:
 
     def x_Assert(self, s):
         v = self.eval(s.test)
+        c = self.frames[0].contract if self.frames else None
+        if c is not None and getattr(c, 'asserts_raise', False):
+            # python semantics: a failing assert raises AssertionError (an allowed exceptional outcome here)
+            if not self.ctx.branch(self.truthy(v)):
+                raise PyRaise(VExc(AssertionError, []))
+            return
         self.ctx.oblige('assert@%d' % s.lineno, self.truthy(v), kind='assert')
         self.ctx.assume(self.truthy(v))
 
@@ -1238,6 +1244,9 @@ class Interp:
             for nm, g in c.requires(cx):
                 ctx.oblige('%s/pre:%s' % (site, nm), g, kind='pre')
                 ctx.assume(g)
+        if c.invariants:
+            for nm, g in c.invariants(cx):
+                ctx.assume(g)
         # recursion bookkeeping (variant / depth) when calling the function under proof
         top = self.frames[0].contract if self.frames else None
         if top is not None and top is c:
@@ -1293,7 +1302,7 @@ class Interp:
         ctx.assume(when(cx2))
         if ecls in c.raises_post:
             self.assume_post([g for nm, g in c.raises_post[ecls](cx2)], havocs)
-        raise PyRaise(VExc(ecls, []))
+        raise PyRaise(self.models.contract_exception(self, ecls))
 
     def assume_post(self, clauses, havocs):
         """Assume a callee's postcondition.  A top-level conjunct `H == T` whose left side is an array
